@@ -186,6 +186,19 @@ func genArgs(r *Rand) []KV {
 	if r.Chance(0.2) {
 		out = append(out, KV{"b", vBool(r.Chance(0.5))})
 	}
+	if r.Chance(0.2) {
+		// a list of records, some of which lack the field x (optional selectors under all)
+		n := r.Range(1, 4)
+		l := make([]Val, n)
+		for i := range l {
+			if r.Chance(0.4) {
+				l[i] = vMap(KV{"y", vStr(randWord(r, 1, 3))})
+			} else {
+				l[i] = vMap(KV{"x", vInt(int64(r.Range(0, 9)))})
+			}
+		}
+		out = append(out, KV{"rec", Val{K: "list", L: l}})
+	}
 	if r.Chance(0.1) {
 		out = append(out, KV{"big", vInt([]int64{9007199254740991, -9007199254740991, 4294967296}[r.Intn(3)])})
 	}
@@ -264,11 +277,17 @@ func genStmt(r *Rand, a []KV, want bool, depth int, top bool) Stmt {
 		case 1: // and
 			n := r.Range(1, 3)
 			kids := make([]Stmt, n)
+			// top stays set through "and": its operands are still in a positive context
+			// (no not/or above them), where a missing path has an indisputable reading
 			for i := range kids {
-				kids[i] = genStmt(r, a, true, depth+1, false)
+				kids[i] = genStmt(r, a, true, depth+1, top)
+				if top && r.Chance(0.3) {
+					// an operand over a missing optional value: says nothing, the others still bind
+					kids[i] = Stmt{Op: Pick(r, []string{"==", "<", "like"}), Sel: Pick(r, []string{".zz?", ".m.zz?", ".yy?"}), Val: ptr(vInt(int64(r.Range(0, 5)))), Pat: "a*"}
+				}
 			}
 			if !want {
-				kids[r.Intn(n)] = genStmt(r, a, false, depth+1, false)
+				kids[r.Intn(n)] = genStmt(r, a, false, depth+1, top)
 			}
 			return Stmt{Op: "and", Kids: kids}
 		default: // or
@@ -333,6 +352,41 @@ func genStmt(r *Rand, a []KV, want bool, depth int, top bool) Stmt {
 	case "bool":
 		return Stmt{Op: "==", Sel: sel, Val: ptr(vBool(v.B == want))}
 	case "list":
+		if len(v.L) > 0 && v.L[0].K == "map" {
+			// records: elements without x say nothing under ".x?", the others must satisfy the statement
+			have := false
+			var lo, hi int64
+			for _, e := range v.L {
+				if x, ok := e.get("x"); ok {
+					if !have || x.I < lo {
+						lo = x.I
+					}
+					if !have || x.I > hi {
+						hi = x.I
+					}
+					have = true
+				}
+			}
+			if want || !have || !top {
+				st := Pick(r, []Stmt{
+					{Op: "all", Sel: sel, Kids: []Stmt{{Op: ">=", Sel: ".x?", Val: ptr(vInt(lo))}}},
+					{Op: "all", Sel: sel, Kids: []Stmt{{Op: "<", Sel: ".x?", Val: ptr(vInt(hi + 1))}}},
+				})
+				if !top || !want {
+					// under not/or only statements whose every path resolves
+					st = Stmt{Op: "==", Sel: sel, Val: ptr(v)}
+					if !want {
+						st = Stmt{Op: "==", Sel: sel, Val: ptr(Val{K: "list", L: append(append([]Val{}, v.L...), vInt(0))})}
+					}
+				}
+				return st
+			}
+			return Pick(r, []Stmt{
+				{Op: "all", Sel: sel, Kids: []Stmt{{Op: ">", Sel: ".x?", Val: ptr(vInt(hi))}}},
+				{Op: "all", Sel: sel, Kids: []Stmt{{Op: "<", Sel: ".x?", Val: ptr(vInt(lo))}}},
+				{Op: "all", Sel: sel, Kids: []Stmt{{Op: "==", Sel: ".x?", Val: ptr(vInt(hi + 1))}}},
+			})
+		}
 		if len(v.L) == 0 {
 			if want {
 				return Stmt{Op: "all", Sel: sel, Kids: []Stmt{{Op: ">", Sel: ".", Val: ptr(vInt(100))}}}
